@@ -171,11 +171,18 @@ def gate_grep():
             p = os.path.join(root, fn)
             depth = 0
             for i, ln in enumerate(open(p), 1):
+                st = ln.strip()
+                if re.match(r'Section\s+\w+\s*\.', st):
+                    depth += 1
+                elif re.match(r'End\s+\w+\s*\.', st) and depth > 0:
+                    depth -= 1
                 m = pat.search(ln)
                 if not m:
                     continue
                 if m.group(1) in ('Hypothesis', 'Variable'):
-                    # allowed only inside sections; checked separately by section tracking below
+                    # a Variable or Hypothesis outside a section declares an axiom
+                    if depth == 0:
+                        bad.append('%s:%d: %s (outside a section)' % (os.path.relpath(p, VERIF), i, st))
                     continue
                 bad.append('%s:%d: %s' % (os.path.relpath(p, VERIF), i, ln.strip()))
     return bad
